@@ -8,6 +8,7 @@ Worlds (``world(kind, coll, style, ...)``):
 * ``o2o``  U7 one-to-one  P.c (``uselist=False``)  <->  C.p
 * ``m2m``  U2 many-to-many  P.cs  <->  C.ps  through ``secondary`` (list or set
   on both sides)
+* ``m2o``  unidirectional many-to-one  C.p  (no backref; C36 / C46)
 
 each with ``style`` = ``bp`` (two relationships joined by back_populates) or
 ``backref`` (legacy ``backref=``).  Every class additionally has scalar
@@ -69,7 +70,7 @@ class World:
             Column("x", Integer),
             Column("y", Integer),
         ]
-        if kind in ("o2m", "o2o"):
+        if kind in ("o2m", "o2o", "m2o"):
             ccols.append(Column("p_id", Integer, ForeignKey("p.id")))
         ct = Table("c", md, *ccols)
         self.p_table, self.c_table = pt, ct
@@ -113,6 +114,9 @@ class World:
                 pprops["cs"] = relationship(
                     C, collection_class=cc, backref=backref("p", active_history=m2o_active_history), **rk
                 )
+        elif kind == "m2o":
+            # unidirectional many-to-one (no collection side, no backref)
+            cprops["p"] = relationship(P, active_history=m2o_active_history)
         elif kind == "o2o":
             if style == "bp":
                 pprops["c"] = relationship(C, back_populates="p", uselist=False, active_history=m2o_active_history, **rk)
@@ -162,6 +166,7 @@ class World:
         else:
             self._engine.dispose()
         self._init_sql = init_sql
+        self.raw = None
         return self._engine
 
     def _creator(self):
@@ -174,6 +179,8 @@ class World:
     def raw_rows(self, sql):
         """read through the very DBAPI connection the StaticPool hands to the
         Session (sees the open transaction's uncommitted rows)"""
+        if self.raw is None:
+            self._engine.raw_connection().close()  # first checkout runs _creator
         return self.raw.execute(sql).fetchall()
 
     def rows_sql(self, pnames, cnames, pairs):
@@ -232,10 +239,8 @@ class World:
         return objs
 
     def _mk(self, items):
-        if self.coll == "dict":
-            return {o.name: o for o in items}
-        if self.coll == "set":
-            return set(items)
+        # set_committed_value takes any iterable of members (the collection's
+        # appender computes dict keys)
         return list(items)
 
     def pk(self, name):
